@@ -25,9 +25,10 @@ type c15Input struct {
 	// Clone: both configurations are used through Config.Clone; Lose: the client's first transmission of its
 	// key-exchange flight is lost, so the server's timer fires first and it sends its flight again;
 	// ReadBuf: (api write) the peer reads with buffers of this size, smaller than a record
-	Clone   bool `json:"clone,omitempty"`
-	Lose    bool `json:"lose,omitempty"`
-	ReadBuf int  `json:"read_buf,omitempty"`
+	PeerPMTU int  `json:"peer_pmtu,omitempty"` // the receiving side's own path MTU when it differs from the sender's (0: the same)
+	Clone    bool `json:"clone,omitempty"`
+	Lose     bool `json:"lose,omitempty"`
+	ReadBuf  int  `json:"read_buf,omitempty"`
 }
 
 func c15Mode(suite uint16) string {
@@ -51,6 +52,13 @@ func c15AddCase(out *emit.Out, scenario string, in c15Input) {
 	sc := tk.EPConfig{Ident: "srv", PMTU: in.PMTU, Auth: 0}
 	if in.Suite == 0xe051 || in.Suite == 0xe011 {
 		sc.Auth = 4
+	}
+	if in.PeerPMTU != 0 { // the endpoint that does not send application data has another path MTU configured
+		if in.Dir == "s2c" {
+			cc.PMTU = in.PeerPMTU
+		} else {
+			sc.PMTU = in.PeerPMTU
+		}
 	}
 	cc.Clone, sc.Clone = in.Clone, in.Clone
 	if in.Lose {
@@ -147,9 +155,24 @@ func c15AddCase(out *emit.Out, scenario string, in c15Input) {
 	}
 	// handshake datagram sizes
 	mode := c15Mode(in.Suite)
-	out.Add(emit.Case{Scenario: scenario + "-handshake", Trivial: false, Input: in, Direct: direct,
-		Observed: map[string]interface{}{"client_datagrams": hsSizes[0], "server_datagrams": hsSizes[1], "ok": hsOK},
-		Coq:      fmt.Sprintf("HsCase (%d) %s %s %s %s", in.PMTU, mode, zl(hsSizes[0]), zl(hsSizes[1]), emit.Bool(hsOK[0] && hsOK[1]))})
+	if in.PeerPMTU != 0 {
+		// each side's datagrams against that side's own path MTU
+		for side := 0; side < 2; side++ {
+			pm := cc.PMTU
+			lists := [2]string{zl(hsSizes[0]), "[]"}
+			if side == 1 {
+				pm = sc.PMTU
+				lists = [2]string{"[]", zl(hsSizes[1])}
+			}
+			out.Add(emit.Case{Scenario: scenario + "-handshake", Trivial: false, Input: in, Direct: direct,
+				Observed: map[string]interface{}{"side": side, "pmtu": pm, "datagrams": hsSizes[side], "ok": hsOK},
+				Coq:      fmt.Sprintf("HsCase (%d) %s %s %s %s", pm, mode, lists[0], lists[1], emit.Bool(hsOK[0] && hsOK[1]))})
+		}
+	} else {
+		out.Add(emit.Case{Scenario: scenario + "-handshake", Trivial: false, Input: in, Direct: direct,
+			Observed: map[string]interface{}{"client_datagrams": hsSizes[0], "server_datagrams": hsSizes[1], "ok": hsOK},
+			Coq:      fmt.Sprintf("HsCase (%d) %s %s %s %s", in.PMTU, mode, zl(hsSizes[0]), zl(hsSizes[1]), emit.Bool(hsOK[0] && hsOK[1]))})
+	}
 	if !(hsOK[0] && hsOK[1]) {
 		return
 	}
@@ -194,7 +217,7 @@ func c15AddCase(out *emit.Out, scenario string, in c15Input) {
 		if len(p) == 0 {
 			sc += "-empty"
 		}
-		out.Add(emit.Case{Scenario: sc, Trivial: false, Input: c15Input{PMTU: in.PMTU, Suite: in.Suite, Sizes: []int{len(p)}, API: in.API, Dir: in.Dir, Clone: in.Clone, Lose: in.Lose},
+		out.Add(emit.Case{Scenario: sc, Trivial: false, Input: c15Input{PMTU: in.PMTU, Suite: in.Suite, Sizes: []int{len(p)}, API: in.API, Dir: in.Dir, Clone: in.Clone, Lose: in.Lose, PeerPMTU: in.PeerPMTU},
 			Observed: map[string]interface{}{"datagrams": perWrite[i], "received": lens, "intact": intact, "returned": wrote[i], "err": werrs[i]},
 			Coq:      fmt.Sprintf("%s (%d) %s %d %s %s %s %d", ctor, in.PMTU, mode, len(p), zl(perWrite[i]), zl(lens), emit.Bool(intact), wrote[i])})
 	}
@@ -288,6 +311,18 @@ func runC15(p params) error {
 					c15AddCase(out, other, c15Input{PMTU: pm, Suite: su, Sizes: []int{16383, 16384, 16385, 40000, 1}, API: other, Dir: dir})
 				}
 			}
+		}
+	}
+	// the two ends configured with different path MTUs: what the sender may send must arrive whatever the receiver's own setting
+	for i, pr := range [][2]int{{1400, 600}, {0, 600}, {1000, 0}, {3000, 0}, {600, 1400}, {9000, 300}} {
+		su := []uint16{0xe053, 0xe013}[i%2]
+		mx := c15Max(pr[0], su)
+		pp := pr[1]
+		if pp == 0 {
+			pp = 1400
+		}
+		for _, api := range []string{"writeto", "write"} {
+			c15AddCase(out, api, c15Input{PMTU: pr[0], PeerPMTU: pp, Suite: su, Sizes: []int{1, mx / 2, mx - 1, mx, 2*mx + 5}, API: api, Dir: []string{"c2s", "s2c"}[i%2]})
 		}
 	}
 	// configurations used through Clone; the server's flight sent a second time (its timer fires while the client's
